@@ -289,7 +289,14 @@ pub struct ReqOpts {
 }
 
 pub fn arb_cookie_pairs() -> impl Strategy<Value = Vec<(String, String)>> {
-    proptest::collection::vec(("[A-Za-z_][A-Za-z0-9_-]{0,7}", "[A-Za-z0-9_.=/+%-]{0,12}"), 1..5)
+    // values: cookie octets, now and then wrapped in or containing double quotes (RFC 6265 allows a quoted cookie-value;
+    // the quotes are part of the value — a parser that strips them went unnoticed by a hand-made mutant)
+    let value = prop_oneof![
+        6 => "[A-Za-z0-9_.=/+%-]{0,12}".prop_map(|v| v),
+        1 => "[A-Za-z0-9_.=/+%-]{0,8}".prop_map(|v| format!("\"{}\"", v)),
+        1 => "[A-Za-z0-9\"]{1,6}".prop_map(|v| v),
+    ];
+    proptest::collection::vec(("[A-Za-z_][A-Za-z0-9_-]{0,7}", value), 1..5)
 }
 
 /// Generates well-formed requests of the grammar Humphrey supports (see DESIGN.md §4 / C02).
